@@ -851,7 +851,7 @@ def witness(kind, fmt):
     if kind == "resolution":
         scs = [simple(fmt, [st], 1 if fmt in ("docx", "odt") else 2, 2) for st in (("relative", "parent", "absolute", "dot") if fmt not in ("odt", "odp", "ods", "odg") else ("relative", "dot"))]
         if fmt == "xlsx":
-            scs.append(Scenario("xlsx", [[Anchor("xl/drawings/media/image1.png", "relative")]], {"xl/drawings/media/image1.png": A, "xl/media/image1.png": B},
+            scs.insert(0, Scenario("xlsx", [[Anchor("xl/drawings/media/image1.png", "relative")]], {"xl/drawings/media/image1.png": A, "xl/media/image1.png": B},
                                 note="media part next to the drawing; another part with the same base name in xl/media"))
         return first_failure(scs, ("resolution", "bytes"))
     return None
@@ -873,7 +873,7 @@ def search(ob):
         return check_resolver("_resolve_drawing_path")
     if "/resolution#" in ob:
         if fmt == "xlsx":
-            return check_resolver("_resolve_image_path") or witness("resolution", "xlsx")
+            return witness("resolution", "xlsx") or check_resolver("_resolve_image_path")
         if fmt == "epub":
             return check_resolver("resolve_href") or witness("resolution", "epub")
         return witness("resolution", fmt)
@@ -939,8 +939,7 @@ def exclusion_sweep(kind, fmt):
         sc = Scenario(fmt, [[Anchor(f"{MEDIA_DIR[fmt]}/x.png")]], {f"{MEDIA_DIR[fmt]}/x.png": b"no image header here, just bytes"})
         return first_failure([sc], ("pixel-size", "bytes"))
     if kind == "order":
-        styles = ("relative",) if fmt in ("odt", "odp", "ods", "odg") else ("relative", "absolute")
-        return first_failure(gen_scenarios(fmt, 7, 12, styles=styles, kinds=("embedded",), share=False, max_units=1 if fmt == "epub" else 3),
+        return first_failure(gen_scenarios(fmt, 7, 12, styles=("relative",), kinds=("embedded",), share=False, max_units=1 if fmt == "epub" else 3),
                              ("resolution", "bytes"), dedup=fmt in ("odt", "odg"))
     if kind == "odf-dot-href":
         return first_failure(gen_scenarios(fmt, 8, 12, styles=("relative",), kinds=("embedded", "missing", "external")), ("resolution", "bytes"), dedup=fmt in ("odt", "odg"))
